@@ -4,10 +4,12 @@ import (
 	"encoding/json"
 	"fmt"
 	"os"
+	"os/exec"
 	"path/filepath"
 	"sort"
 	"strconv"
 	"strings"
+	"sync"
 	"time"
 )
 
@@ -79,19 +81,116 @@ func cmdCheck(args []string) int {
 	return ctx.run(jobs)
 }
 
-func (ctx *checkCtx) run(jobs []Job) int {
-	r := ctx.runner
-	for _, j := range jobs {
-		if j.Prop == "" {
-			j.Prop = ctx.prop
-		}
-		jr := r.runJob(j)
-		ctx.jobs = append(ctx.jobs, jr)
-		if jr.Err != "" {
-			ctx.incon = append(ctx.incon, fmt.Sprintf("%s: engine: %s", j.key(), jr.Err))
+// runShard: execute a list of jobs and write their results (used by parallel check workers)
+func cmdShard(args []string) int {
+	data, err := os.ReadFile(args[0])
+	if err != nil {
+		fmt.Fprintln(os.Stderr, err)
+		return 2
+	}
+	var jobs []Job
+	if err := json.Unmarshal(data, &jobs); err != nil {
+		fmt.Fprintln(os.Stderr, err)
+		return 2
+	}
+	r := newRunner()
+	if len(args) > 2 {
+		if n, err := strconv.Atoi(args[2]); err == nil && n > 0 {
+			r.sem = make(chan struct{}, n)
 		}
 	}
+	var out []*JobResult
+	for _, j := range jobs {
+		out = append(out, r.runJob(j))
+	}
 	r.wg.Wait()
+	res, _ := json.Marshal(out)
+	if err := os.WriteFile(args[1], res, 0644); err != nil {
+		fmt.Fprintln(os.Stderr, err)
+		return 2
+	}
+	return 0
+}
+
+func (ctx *checkCtx) runJobs(jobs []Job) {
+	r := ctx.runner
+	nShards := (len(jobs) + 2) / 3
+	if nShards > 8 {
+		nShards = 8
+	}
+	if len(jobs) < 8 || os.Getenv("GOSMT_NOSHARD") != "" {
+		for _, j := range jobs {
+			ctx.jobs = append(ctx.jobs, r.runJob(j))
+		}
+		r.wg.Wait()
+		return
+	}
+	tmp, err := os.MkdirTemp("", "gosmt-shards-")
+	if err != nil {
+		panic(err)
+	}
+	defer os.RemoveAll(tmp)
+	shards := make([][]Job, nShards)
+	index := make([][]int, nShards)
+	// heavy jobs first, dealt round-robin
+	for i, j := range jobs {
+		k := i % nShards
+		shards[k] = append(shards[k], j)
+		index[k] = append(index[k], i)
+	}
+	results := make([]*JobResult, len(jobs))
+	var wg sync.WaitGroup
+	self, _ := os.Executable()
+	per := 16 / nShards
+	if per < 2 {
+		per = 2
+	}
+	for k := range shards {
+		wg.Add(1)
+		go func(k int) {
+			defer wg.Done()
+			in := filepath.Join(tmp, fmt.Sprintf("in%d.json", k))
+			outp := filepath.Join(tmp, fmt.Sprintf("out%d.json", k))
+			data, _ := json.Marshal(shards[k])
+			os.WriteFile(in, data, 0644)
+			cmd := exec.Command(self, "shard", in, outp, strconv.Itoa(per))
+			cmd.Stderr = os.Stderr
+			cmd.Env = os.Environ()
+			runErr := cmd.Run()
+			var out []*JobResult
+			if d, err := os.ReadFile(outp); err == nil {
+				json.Unmarshal(d, &out)
+			}
+			for n, i := range index[k] {
+				if n < len(out) && out[n] != nil {
+					results[i] = out[n]
+				} else {
+					results[i] = &JobResult{Job: shards[k][n], Err: fmt.Sprintf("shard worker failed: %v", runErr)}
+				}
+			}
+		}(k)
+	}
+	wg.Wait()
+	for _, jr := range results {
+		for _, o := range jr.Oblig {
+			o.job = &jr.Job
+		}
+		ctx.jobs = append(ctx.jobs, jr)
+	}
+}
+
+func (ctx *checkCtx) run(jobs []Job) int {
+	for i := range jobs {
+		if jobs[i].Prop == "" {
+			jobs[i].Prop = ctx.prop
+		}
+	}
+	ctx.runJobs(jobs)
+	for _, jr := range ctx.jobs {
+		if jr.Err != "" {
+			ctx.incon = append(ctx.incon, fmt.Sprintf("%s: engine: %s", jr.Job.key(), jr.Err))
+		}
+	}
 	known := loadKnownFindings()
 	// classify
 	type repItem struct {
@@ -106,49 +205,49 @@ func (ctx *checkCtx) run(jobs []Job) int {
 			case "cover":
 				switch o.Status {
 				case "sat":
-					o.verdict = "ok"
+					o.Verdict = "ok"
 					// replay one cover witness per (harness,label) for translator validation
 					k := o.job.Harness + "/" + o.Label
-					if o.model != nil && !coverSeen[k] && !o.job.Abstract {
+					if o.Model != nil && !coverSeen[k] && !o.job.Abstract {
 						coverSeen[k] = true
 						toReplay = append(toReplay, repItem{o, ctx.replayCase(o)})
 					}
 				case "unsat":
 					if jr.Paths > 1 {
-						o.verdict = "ok" // path-wise exploration: infeasible paths are expected; reachability is checked per label below
+						o.Verdict = "ok" // path-wise exploration: infeasible paths are expected; reachability is checked per label below
 					} else {
-						o.verdict = "inconclusive"
-						o.detail = "vacuous: cover point unreachable"
+						o.Verdict = "inconclusive"
+						o.Detail = "vacuous: cover point unreachable"
 					}
 				default:
-					o.verdict = "inconclusive"
+					o.Verdict = "inconclusive"
 				}
 			case "unwind":
-				o.verdict = "inconclusive"
-				if o.Status == "sat" && o.model != nil {
+				o.Verdict = "inconclusive"
+				if o.Status == "sat" && o.Model != nil {
 					toReplay = append(toReplay, repItem{o, ctx.replayCase(o)})
 				}
 			case "known":
 				switch o.Status {
 				case "unsat":
-					o.verdict = "ok" // finding no longer present
+					o.Verdict = "ok" // finding no longer present
 				case "sat":
-					o.verdict = "known"
-					if o.model != nil {
+					o.Verdict = "known"
+					if o.Model != nil {
 						toReplay = append(toReplay, repItem{o, ctx.replayCase(o)})
 					}
 				default:
-					o.verdict = "ok"
+					o.Verdict = "ok"
 				}
 			default: // assert, panic, frame
 				switch o.Status {
 				case "unsat":
-					o.verdict = "ok"
+					o.Verdict = "ok"
 				case "sat":
-					if o.model == nil {
-						o.verdict = "inconclusive"
-						if o.detail == "" {
-							o.detail = "no usable model"
+					if o.Model == nil {
+						o.Verdict = "inconclusive"
+						if o.Detail == "" {
+							o.Detail = "no usable model"
 						}
 					} else {
 						toReplay = append(toReplay, repItem{o, ctx.replayCase(o)})
@@ -156,9 +255,9 @@ func (ctx *checkCtx) run(jobs []Job) int {
 				default:
 					if o.Lattice > 0 {
 						// auxiliary lattice search (bug hunting only): undecided is recorded, nothing is claimed from it
-						o.verdict = "undecided-search"
+						o.Verdict = "undecided-search"
 					} else {
-						o.verdict = "inconclusive"
+						o.Verdict = "inconclusive"
 					}
 				}
 			}
@@ -200,9 +299,9 @@ func (ctx *checkCtx) run(jobs []Job) int {
 		if err != nil {
 			ctx.incon = append(ctx.incon, "native replay failed: "+err.Error())
 			for _, i := range idxs {
-				if toReplay[i].o.verdict == "" {
-					toReplay[i].o.verdict = "inconclusive"
-					toReplay[i].o.detail = "replay failed"
+				if toReplay[i].o.Verdict == "" {
+					toReplay[i].o.Verdict = "inconclusive"
+					toReplay[i].o.Detail = "replay failed"
 				}
 			}
 			continue
@@ -214,9 +313,9 @@ func (ctx *checkCtx) run(jobs []Job) int {
 	// summarise
 	for _, jr := range ctx.jobs {
 		for _, o := range jr.Oblig {
-			switch o.verdict {
+			switch o.Verdict {
 			case "inconclusive":
-				ctx.incon = append(ctx.incon, fmt.Sprintf("%s %s[%s] %s: %s %s", o.Job, o.Kind, o.Label, o.Pos, o.Status, o.detail))
+				ctx.incon = append(ctx.incon, fmt.Sprintf("%s %s[%s] %s: %s %s", o.Job, o.Kind, o.Label, o.Pos, o.Status, o.Detail))
 			}
 		}
 	}
@@ -259,7 +358,7 @@ func dedup(xs []string) []string {
 }
 
 func (ctx *checkCtx) replayCase(o *OblResult) ReplayCase {
-	return ReplayCase{Harness: o.job.Harness, Params: o.job.Params, Inputs: o.model, Pkg: o.job.Pkg, Label: o.Label, Kind: o.Kind, Prop: ctx.prop, Consts: o.job.Consts}
+	return ReplayCase{Harness: o.job.Harness, Params: o.job.Params, Inputs: o.Model, Pkg: o.job.Pkg, Label: o.Label, Kind: o.Kind, Prop: ctx.prop, Consts: o.job.Consts}
 }
 
 func contains(xs []string, s string) bool {
@@ -300,31 +399,31 @@ func (ctx *checkCtx) classifyReplay(o *OblResult, rc ReplayCase, out ReplayOutco
 	case "cover":
 		ctx.coverRep++
 		if !out.Ran || !contains(out.Covers, o.Label) || len(out.Problems) > 0 {
-			o.verdict = "inconclusive"
-			o.detail = "cover witness does not reach the cover point natively (translator mismatch): " + problems
+			o.Verdict = "inconclusive"
+			o.Detail = "cover witness does not reach the cover point natively (translator mismatch): " + problems
 			return
 		}
-		for lbl, want := range o.traces {
+		for lbl, want := range o.Traces {
 			if got, ok := out.Traces[lbl]; ok && got != want {
-				o.verdict = "inconclusive"
-				o.detail = fmt.Sprintf("trace %s: engine %s, native %s (translator mismatch)", lbl, want, got)
+				o.Verdict = "inconclusive"
+				o.Detail = fmt.Sprintf("trace %s: engine %s, native %s (translator mismatch)", lbl, want, got)
 				return
 			}
 		}
 		ctx.replayOK++
-		o.verdict = "ok"
+		o.Verdict = "ok"
 	case "known":
 		id := o.Label
 		kf, listed := known[id]
 		fails := contains(out.AssertFails, "KNOWN:"+id) || out.Hang || out.Panic != ""
 		if !fails {
-			o.verdict = "inconclusive"
-			o.detail = "known-finding model does not reproduce natively: " + problems
+			o.Verdict = "inconclusive"
+			o.Detail = "known-finding model does not reproduce natively: " + problems
 			return
 		}
 		if !listed || kf.Status != "known" {
 			p := ctx.saveReplay(rc)
-			o.verdict = "violation"
+			o.Verdict = "violation"
 			ctx.violations = append(ctx.violations, fmt.Sprintf("VIOLATION property=%s replay=%s", ctx.prop, p))
 			return
 		}
@@ -333,8 +432,8 @@ func (ctx *checkCtx) classifyReplay(o *OblResult, rc ReplayCase, out ReplayOutco
 	case "unwind":
 		if out.Hang {
 			p := ctx.saveReplay(rc)
-			o.verdict = "violation"
-			o.detail = "native run does not terminate"
+			o.Verdict = "violation"
+			o.Detail = "native run does not terminate"
 			ctx.violations = append(ctx.violations, fmt.Sprintf("VIOLATION property=%s replay=%s", ctx.prop, p))
 		}
 	default:
@@ -351,18 +450,18 @@ func (ctx *checkCtx) classifyReplay(o *OblResult, rc ReplayCase, out ReplayOutco
 			reproduced = true
 		}
 		if !out.Ran || len(out.Problems) > 0 && !reproduced {
-			o.verdict = "inconclusive"
-			o.detail = "counterexample not replayable: " + problems
+			o.Verdict = "inconclusive"
+			o.Detail = "counterexample not replayable: " + problems
 			return
 		}
 		if !reproduced {
-			o.verdict = "inconclusive"
-			o.detail = fmt.Sprintf("counterexample does not reproduce natively (asserts failed natively: %v, panic=%q)", out.AssertFails, out.Panic)
+			o.Verdict = "inconclusive"
+			o.Detail = fmt.Sprintf("counterexample does not reproduce natively (asserts failed natively: %v, panic=%q)", out.AssertFails, out.Panic)
 			return
 		}
 		ctx.replayOK++
 		p := ctx.saveReplay(rc)
-		o.verdict = "violation"
+		o.Verdict = "violation"
 		ctx.violations = append(ctx.violations, fmt.Sprintf("VIOLATION property=%s replay=%s", ctx.prop, p))
 	}
 }
@@ -389,7 +488,7 @@ func (ctx *checkCtx) writeEvidence() {
 			oblig++
 			solverMs += o.Ms
 			bySolver[o.Solver]++
-			switch o.verdict {
+			switch o.Verdict {
 			case "ok", "known":
 				disch++
 			case "inconclusive", "undecided-search":
@@ -401,7 +500,7 @@ func (ctx *checkCtx) writeEvidence() {
 				nSat++
 			}
 			if len(samples) < 40 {
-				samples = append(samples, map[string]interface{}{"job": o.Job, "kind": o.Kind, "label": o.Label, "pos": o.Pos, "status": o.Status, "verdict": o.verdict, "ms": o.Ms, "solver": o.Solver, "term_nodes": o.Size})
+				samples = append(samples, map[string]interface{}{"job": o.Job, "kind": o.Kind, "label": o.Label, "pos": o.Pos, "status": o.Status, "verdict": o.Verdict, "ms": o.Ms, "solver": o.Solver, "term_nodes": o.Size})
 			}
 		}
 		jobsOut = append(jobsOut, map[string]interface{}{"job": jr.Job.key(), "pkg": jr.Job.Pkg, "paths": jr.Paths, "ssa_instrs": jr.Instrs, "forks": jr.Forks, "merges": jr.Merges, "obligations": len(jr.Oblig), "unsat": nUnsat, "sat": nSat, "sym_ms": jr.SymMs, "err": jr.Err, "consts": jr.Job.Consts, "contracts": jr.Job.Contracts, "note": jr.Job.Note})
